@@ -22,6 +22,8 @@ CFG = dict(
         "session stream: only top-level functions are kept across a cancellation (closures created by getFunc are dead after any cancellation: C10-closure-after-cancel)",
         "go/defer stream: observed in a child process with GOMAXPROCS(1), so that a goroutine started by a go statement does not run before the script blocks (after the re-assignment); on the unchanged tree every main-stream cell is also scheduling-independent",
         "argument-shape stream: echoes are compared by class (concrete value / host wrapper / interp.valueInterface / panic); the plainest shape's echo in the same interpreter is recorded with each mismatch",
+        "composite literals of host-declared named types: slice/array element positions are re-computed by Y (lit_indexes) on every case; map and struct literals and all forms (variable, conversion from a script type, nested) are compared behaviourally with the literal evaluated natively",
+        "result placement with captured variables (closure / pointer taken before a := re-declaration or = of a multi-result host call): compared behaviourally with Go's rule and with the same statement calling a script function; not modelled in Coq",
         "script-side observation uses strconv/math host calls as trusted infrastructure (also used by the in-script oracle)",
     ],
     harness_timeout=2400,
